@@ -1,20 +1,32 @@
 """C07 Graceful shutdown finishes in-flight requests and stops accepting (E2: the crate's own state machines under a scheduler; hyper's connection future is a scripted mock)."""
 import mirrun
+from kanirun import H
 
 FACADE = False
-FUNCS = ["server::Server::{new,with_graceful_shutdown}", "server::GracefulShutdown::{new,poll}", "server::Serving::poll_once", "server::{close,CloseSender::send,CloseReciever::into_future (async block, lowered coroutine MIR),CloseFuture::poll}",
+FUNCS = ["server::conn::auto::ReadVersion::{cancel,poll} (Kani)", "server::Server::{new,with_graceful_shutdown}", "server::GracefulShutdown::{new,poll}", "server::Serving::poll_once", "server::{close,CloseSender::send,CloseReciever::into_future (async block, lowered coroutine MIR),CloseFuture::poll}",
          "server::conn::drivers::{ConnectionDriver::poll,GracefulConnectionDriver::{new,poll}}"]
 BOUNDS = ("pre-states with 0, 1 or 2 established connections (driver polled or not, idle or request in flight), up to 3 connections in all; every schedule of 5 / 4 / 3 (quick) or 7 / 6 / 4 (thorough) scheduler actions "
           "{connect, make-service resolves, request arrives, response completes, connection error, client closes, shutdown signal, poll server, poll driver (only if woken)}; then the signal if it has not fired and a drain")
-OUTSIDE = ("everything inside the protocol's connection future: hyper's own graceful shutdown of HTTP/1 and HTTP/2 connections, request bodies, response streaming, and UpgradableConnection's arms (its cancel-while-sniffing arm is a Kani harness under C08's module but not claimed here); "
+OUTSIDE = ("everything inside the protocol's connection future: hyper's own graceful shutdown of HTTP/1 and HTTP/2 connections, request bodies, response streaming, and UpgradableConnection's HTTP/1 and HTTP/2 arms (they delegate to hyper); its cancel-while-sniffing arm is decided by the Kani harnesses c07_cancel_while_sniffing_f<n> for every number n of bytes already buffered; "
            "the connection is a mock with the contract 'after graceful_shutdown(): finish the exchange in flight, then complete; idle: complete at the next poll'; more than 3 connections; TLS acceptors")
 ASSUMPTIONS = ["tokio watch channel: Sender::closed() resolves exactly when every Receiver has been dropped and wakes the tasks waiting on it",
                "futures_util Fuse: Pending for ever after completion; tracing spans disabled; the executor polls a spawned driver only when it was woken"]
 TRUSTED = ["mirsym MIR parser/executor incl. coroutine support and the built-in effect of pin-project's project_replace", "ob_serve.py world", "z3 5.1"]
 
 
+TIMEOUT = {"quick": 240, "thorough": 900}
+
+
 def harnesses(tier, seed):
-    return []
+    """E1: the one arm of UpgradableConnection::graceful_shutdown that is hyperdriver's own code: a
+    connection still sniffing its protocol is cancelled - whatever it has buffered so far"""
+    hs = []
+    quick_f = {0, 1, 5, 23}
+    for f in range(24):
+        hs.append(H(name=f"c07_cancel_while_sniffing_f{f}", module="auto", call=f"c07_cancel_while_sniffing({f})", unwind=26, family="c07_cancel_while_sniffing",
+                    tier="quick" if f in quick_f else "thorough", desc={"bytes_already_consumed": f, "bytes": "symbolic"},
+                    funcs=["server::conn::auto::ReadVersion::{cancel,poll}"]))
+    return hs
 
 
 def extra(tier, seed, log):
